@@ -1,0 +1,394 @@
+//go:build verif
+
+// Contracts of worker w-c05: property C05 (keyed collections act as functions; >>, >>>, ++ and offsets keep
+// keys right), the builder half of C07 (asString/asArray/asBytes are functions of the SET of tuples given)
+// and the remaining writers of C03 (frames). Vocabulary: /verif/specs/45_keyed.spec/.smt2.
+// Comments only; read by /verif/engine (govc).
+package rel
+
+// ---- C07/C01: the sugar-set builders (value_set_bytes.go, value_set_str.go, value_set_array.go) ------------
+
+// asBytes(values): the Bytes whose members are exactly the byte tuples given (whatever their order).
+// `elems`, `nonempty`: established by the bucket dispatch of SetBuilder.Add (a bucket exists only after
+// an Add, and the bytes bucket only receives BytesByteTuples).
+//@ func asBytes(values)
+//@   tags C10, C07, C01
+//@   assigns fresh-only
+//@   requires elems: forall i in 0..len(values) :: values[i] is BytesByteTuple
+//@   requires nonempty: len(values) > 0
+//@   ensures[C02] valid: validBytes(result)
+//@   ensures[C01,C07] sup: forall i in 0..len(values) :: memBytes(result, values[i])
+//@   ensures[C01,C07] sub: forall j in 0..len(result.b) :: result.b[j] == 0 || (exists i in 0..len(values) :: values[i].(BytesByteTuple).at == result.offset + j && values[i].(BytesByteTuple).byteval == result.b[j])
+// (a zero byte that no tuple put there -- the gap fill -- is caught by `alloc`: without superimposed tuples len(result.b) <= len(values) says every slot is backed by a tuple.
+//  The direct form `memBytes(result, x) ==> inVals(values, x)` fails on gaps as it should, but outside the gap region no solver finds the forall-exists witness.)
+//@   ensures[C05] off: forall i in 0..len(values) :: result.offset <= values[i].(BytesByteTuple).at
+//@   ensures[C10] alloc: len(result.b) <= len(values)
+//@   loop 0 invariant scan: $idx <= len(values) && fresh(tuples) && tuples.off == 0 && len(tuples) == $idx && cap(tuples) == len(values)
+//@       && (forall j in 0..$idx :: tuples[j].at == values[j].(BytesByteTuple).at && tuples[j].byteval == values[j].(BytesByteTuple).byteval)
+//@       && (forall j in 0..$idx :: minAt <= tuples[j].at && tuples[j].at <= maxAt)
+//@       && ($idx == 0 ==> minAt == 9223372036854775807 && maxAt == -9223372036854775808)
+//@       && ($idx > 0 ==> (exists j in 0..$idx :: tuples[j].at == minAt) && (exists j in 0..$idx :: tuples[j].at == maxAt))
+//@   loop 1 invariant place: $idx <= len(tuples) && fresh(bytes) && bytes.off == 0 && len(bytes) == maxAt - minAt + 1 && bytes.ref != tuples.ref
+//@       && (forall k in 0..$idx :: bytes[tuples[k].at - minAt] == tuples[k].byteval)
+//@       && (forall j in 0..len(bytes) :: bytes[j] == 0 || (exists k in 0..$idx :: tuples[k].at - minAt == j && tuples[k].byteval == bytes[j]))
+
+// asString(values): the String whose members are exactly the char tuples given. Known to fail (findings): two
+// tuples at one index (last enumerated wins; even two identical ones make `holes` wrong), @char < 0 (stored as
+// a hole), indices far apart (dense allocation).
+//@ func asString(values)
+//@   tags C10, C07, C01
+//@   assigns fresh-only
+//@   requires elems: forall i in 0..len(values) :: values[i] is StringCharTuple
+//@   requires nonempty: len(values) > 0
+//@   ensures[C02,C01] ends: len(result.s) > 0 && result.s[0] >= 0 && result.s[len(result.s)-1] >= 0     // canonical form, minus the hole count:
+// (not claimed: result.holes == cntNeg(...), i.e. the rest of validString: with the counting invariant `cntNeg(row(str),0,len(str)) == len(str)-$idx` every
+//  obligation of the function slows down beyond the time limit; the wrong hole count for repeated tuples is recorded under inv.2.placed.step / post.sup)
+//@   ensures[C01,C07] sup: forall i in 0..len(values) :: values[i].(StringCharTuple).char >= 0 ==> memString(result, values[i])
+//@   ensures[C01] nonneg: forall i in 0..len(values) :: values[i].(StringCharTuple).char >= 0    // input clause (user data, cannot be a precondition): a tuple with @char < 0 is stored as a hole, i.e. dropped
+//@   ensures[C01,C07] sub: forall x: Val :: memString(result, x) ==> inVals(values, x)
+//@   ensures[C05] off: forall i in 0..len(values) :: result.offset <= values[i].(StringCharTuple).at
+//@   ensures[C10] alloc: len(result.s) <= len(values)
+//@   loop 0 invariant scan: $idx <= len(values) && fresh(tuples) && tuples.off == 0 && len(tuples) == $idx && cap(tuples) == len(values)
+//@       && (forall j in 0..$idx :: tuples[j].at == values[j].(StringCharTuple).at && tuples[j].char == values[j].(StringCharTuple).char)
+//@       && (forall j in 0..$idx :: minAt <= tuples[j].at && tuples[j].at <= maxAt)
+//@       && ($idx == 0 ==> minAt == 9223372036854775807 && maxAt == -9223372036854775808)
+//@       && ($idx > 0 ==> (exists j in 0..$idx :: tuples[j].at == minAt) && (exists j in 0..$idx :: tuples[j].at == maxAt))
+//@   loop 1 invariant fill: $idx <= len(str) && fresh(str) && str.off == 0 && len(str) == maxAt - minAt + 1 && str.ref != tuples.ref
+//@       && (forall j in 0..$idx :: str[j] == -1)
+//@   loop 2 invariant place: $idx <= len(tuples) && fresh(str) && str.off == 0 && len(str) == maxAt - minAt + 1 && str.ref != tuples.ref
+//@   loop 2 invariant placed: forall k in 0..$idx :: str[tuples[k].at - minAt] == tuples[k].char
+//@   loop 2 invariant src: forall j in 0..len(str) :: str[j] == -1 || (exists k in 0..$idx :: tuples[k].at - minAt == j && tuples[k].char == str[j])
+
+// asArray(values): the Array whose items are exactly the item tuples given. Known to fail (findings): two tuples
+// at one index (last enumerated wins), indices far apart, and the int32 sentinels of the min/max scan.
+//@ func asArray(values)
+//@   tags C10, C07, C01
+//@   assigns fresh-only
+//@   requires elems: forall i in 0..len(values) :: values[i] is ArrayItemTuple
+//@   requires itemsnn: forall i in 0..len(values) :: values[i].(ArrayItemTuple).item != nil
+//@   requires nonempty: len(values) > 0
+//@   ensures[C02,C01] ends: len(result.values) > 0 && result.values[0] != nil && result.values[len(result.values)-1] != nil     // canonical form minus the item count
+//@   ensures[C01,C07] sup: forall i in 0..len(values) :: itemIn(result, values[i].(ArrayItemTuple))
+//@   ensures[C01,C07] sub: forall j in 0..len(result.values) :: result.values[j] == nil || (exists i in 0..len(values) :: values[i].(ArrayItemTuple).at == result.offset + j && values[i].(ArrayItemTuple).item == result.values[j])
+//@   ensures[C05] off: forall i in 0..len(values) :: result.offset <= values[i].(ArrayItemTuple).at
+//@   ensures[C10] alloc: len(result.values) <= len(values)
+//@   loop 0 invariant scan: $idx <= len(values)
+//@       && (forall j in 0..$idx :: minIndex <= values[j].(ArrayItemTuple).at && values[j].(ArrayItemTuple).at <= maxIndex)
+//@       && minIndex <= 2147483647 && maxIndex >= -2147483648
+//@       && ((exists j in 0..$idx :: values[j].(ArrayItemTuple).at == minIndex) || (minIndex == 2147483647 && (forall j in 0..$idx :: values[j].(ArrayItemTuple).at > 2147483647)))
+//@       && ((exists j in 0..$idx :: values[j].(ArrayItemTuple).at == maxIndex) || (maxIndex == -2147483648 && (forall j in 0..$idx :: values[j].(ArrayItemTuple).at < -2147483648)))
+//@   loop 1 invariant place: $idx <= len(values) && fresh(items) && items.off == 0 && len(items) == maxIndex - minIndex + 1 && items.ref != values.ref
+//@   loop 1 invariant placed: forall k in 0..$idx :: items[values[k].(ArrayItemTuple).at - minIndex] == values[k].(ArrayItemTuple).item
+//@   loop 1 invariant src: forall j in 0..len(items) :: items[j] == nil || (exists k in 0..$idx :: values[k].(ArrayItemTuple).at - minIndex == j && values[k].(ArrayItemTuple).item == items[j])
+// (not claimed: `n == cntNN(row(items), 0, len(items))`, hence not result.count == cntNN(...): the counting step does not finish within 60 s)
+
+// ---- C05: the exactly-one rule (value.go, expr_binary.go) ------------------------------------------------------
+
+// (*SetBuilder).Finish (header and `trusted` in verif_contracts_c13.go): the set of the values added, PROVIDED the
+// sugar builders can represent it (cleanSet; otherwise see the findings of asString/asArray/asBytes: a member is
+// dropped or invented). ASSUMED: composition of the bucket dispatch with asString/asArray/asBytes/dictFinish/
+// genericSetFinish; the ghost `added` has no multiplicities.
+//@ func (*SetBuilder).Finish(b)
+//@   ensures[C01] den: err == nil && cleanSet(added) ==> s != nil && validSet(s) && (forall x: Val :: mem(s, x) <==> added[x])
+//@   ensures[C01] den2: err == nil && cleanSet(added) ==> (forall x: Val :: mem2(s, x) <==> added[x])    // mem2: 35_sets.spec (UnionSet case concrete)
+//@   ensures[C05] noerr: err == nil    // every finish function returns a nil error (dictFinish: NewDict(true, ...) has no failing path)
+
+// the builder created here is private: for the caller the ghost `added` (its own builder) is unchanged
+//@ func SetCall(ctx, s, arg)
+//@   tags C05, C10
+//@   assigns fresh-only
+//@   returns (v, err)
+//@   modifies rel.arrayValueEnumerator, enset, enseen, encur      // enumerator cursors are not values (MoveNext interface contract)
+//@   ghostentry added := noVals
+//@   ghostexit added := old(added)
+//@   requires wf: s != nil && validSet(s)
+//@   ensures[C05] cerr: callerr(s, arg) != nil ==> v == nil && err == callerr(s, arg)
+//@   ensures[C05] one: err == nil ==> v != nil && validSet(v) && calls(s, arg, v) && (forall x: Val :: calls(s, arg, x) ==> eq(x, v))
+//@   ensures[C05] none: callerr(s, arg) == nil ==> ((err is NoReturnError) <==> (forall x: Val :: !calls(s, arg, x)))
+//@   ensures[C05] many: callerr(s, arg) == nil && err != nil && !(err is NoReturnError) ==> v == nil && (exists x: Val :: exists y: Val :: calls(s, arg, x) && calls(s, arg, y) && !eq(x, y))
+//@   ensures[C05] verr: err != nil ==> v == nil
+
+//@ func WrapContextErr(err, expr, scope)
+//@   tags C10
+//@   assigns fresh-only
+//@   requires expr != nil
+//@   ensures result is ContextErr && result.(ContextErr).err == err
+
+//@ func NewClosure(scope, f)
+//@   tags C10
+//@   pure
+//@   ensures result.scope == scope && result.f == f
+
+// Call (the `a(b)` operator; safety stub with the same header in verif_contracts_c10.go): SetCall on sets, an error otherwise
+//@ func Call(ctx, a, b, p3)
+//@   tags C05
+//@   assigns fresh-only
+//@   modifies rel.arrayValueEnumerator, enset, enseen, encur
+//@   returns (v, err)
+//@   requires wf: validSet(a)
+//@   ensures[C05] notset: !(a is Set) ==> v == nil && err != nil
+//@   ensures[C05] cerr: a is Set && callerr(a, b) != nil ==> v == nil && err == callerr(a, b)
+//@   ensures[C05] one: a is Set && err == nil ==> v != nil && calls(a, b, v) && (forall x: Val :: calls(a, b, x) ==> eq(x, v))
+//@   ensures[C05] none: a is Set && callerr(a, b) == nil ==> ((err is NoReturnError) <==> (forall x: Val :: !calls(a, b, x)))
+//@   ensures[C05] many: a is Set && callerr(a, b) == nil && err != nil && !(err is NoReturnError) ==> (exists x: Val :: exists y: Val :: calls(a, b, x) && calls(a, b, y) && !eq(x, y))
+//@   ensures[C05] verr: err != nil ==> v == nil
+
+// ---- C05: `base?.tail:fallback` (expr_safe_tail.go) ------------------------------------------------------------
+// The tail callbacks are function values (compiled by syntax.compileSafeTails): modelled as pure applications
+// (fnapply, engine/fnapply.go). tailres(s, ctx, local, i, v): the (value, error) pair callback i returns on v.
+// Claimed: per iteration (loop 0 ensures: the loop goes on only with the value the callback produced), and the
+// complete case analysis for a single tail (`a?.b:c`, `a(k)?:c`): the fallback is evaluated exactly when the
+// callback returns (nil, nil) -- which syntax.compileSafeTails$1$1 does exactly on NoReturnError / missing attribute.
+//@ spec tailres(s, ctx, local, i, v) = fnapply(rel.SafeTailCallback, s.tailExprs[i], ctx, v, local)
+//@ func (*SafeTailExpr).Eval(s; ctx, local)
+//@   tags C05, C10
+//@   assigns fresh-only
+//@   fnparam * pure fresh-only
+//@   returns (value, err)
+//@   requires wf: s != nil && s.base != nil && s.fallbackValue != nil && len(s.tailExprs) > 0 && (forall i in 0..len(s.tailExprs) :: s.tailExprs[i] != nil)
+//@   ensures[C05] baseerr: !evalok(s.base, ctx, sc(local)) ==> err != nil && value == nil
+//@   ensures[C05] one.err: len(s.tailExprs) == 1 && evalok(s.base, ctx, sc(local)) && tailres(s, ctx, local, 0, evalv(s.base, ctx, sc(local)))[1] != nil ==> err != nil && value == nil
+//@   ensures[C05] one.val: len(s.tailExprs) == 1 && evalok(s.base, ctx, sc(local)) && tailres(s, ctx, local, 0, evalv(s.base, ctx, sc(local)))[1] == nil && tailres(s, ctx, local, 0, evalv(s.base, ctx, sc(local)))[0] != nil
+//@       ==> err == nil && value == tailres(s, ctx, local, 0, evalv(s.base, ctx, sc(local)))[0]
+//@   ensures[C05] one.fallback: len(s.tailExprs) == 1 && evalok(s.base, ctx, sc(local)) && tailres(s, ctx, local, 0, evalv(s.base, ctx, sc(local)))[1] == nil && tailres(s, ctx, local, 0, evalv(s.base, ctx, sc(local)))[0] == nil
+//@       ==> (err == nil) == evalok(s.fallbackValue, ctx, sc(local)) && (err == nil ==> value == evalv(s.fallbackValue, ctx, sc(local)))
+//@   loop 0 invariant chain: $idx <= len(s.tailExprs) && value != nil && err == nil && ($idx == 0 ==> evalok(s.base, ctx, sc(local)) && value == evalv(s.base, ctx, sc(local)))
+//@       && (len(s.tailExprs) == 1 && $idx == 1 ==> evalok(s.base, ctx, sc(local)) && tailres(s, ctx, local, 0, evalv(s.base, ctx, sc(local)))[1] == nil && value == tailres(s, ctx, local, 0, evalv(s.base, ctx, sc(local)))[0])
+//@   loop 0 ensures[C05] step: value != nil && value == fnapply(rel.SafeTailCallback, t, ctx, prev(value), local)[0] && fnapply(rel.SafeTailCallback, t, ctx, prev(value), local)[1] == nil
+
+// ---- C05: >> and >>> (expr_seqmap.go) ----------------------------------------------------------------------------
+// NewOffsetArray (header in verif_contracts.go, which claims safety only): the case without trimming, which is what
+// SeqArrowExpr.Eval / OffsetExpr.Eval produce from a canonical array, and the empty case.
+//@ func NewOffsetArray(offset, values)
+//@   ensures[C05] untrimmed: len(values) > 0 && values[0] != nil && values[len(values)-1] != nil ==> result is Array && result.(Array).values == values && result.(Array).offset == offset && result.(Array).count == cntNN(row(values), values.off, values.off + len(values))
+//@   ensures[C05] empty: len(values) == 0 ==> result is EmptySet
+
+// structural postconditions of the two other offset constructors (headers in verif_contracts.go)
+//@ func NewOffsetBytes(b, offset)
+//@   ensures[C05] shape: len(b) > 0 ==> result is Bytes && result.(Bytes).b == b && result.(Bytes).offset == offset
+//@   ensures[C05] empty: len(b) == 0 ==> result is EmptySet
+//@ func NewOffsetString(s, offset)
+//@   ensures[C05] shape: len(s) > 0 ==> result is String && result.(String).s == s && result.(String).offset == offset
+//@   ensures[C05] empty: len(s) == 0 ==> result is EmptySet
+
+// thin ASSUMED contracts of the frozen-backed helpers the Dict / Set branches use
+//@ func (Dict).Enumerator(d)
+//@   trusted
+//@   assigns fresh-only
+//@   modifies enset, enseen
+//@   ensures result != nil && !(result is *arrayItemEnumerator) && enset[result] == box(d) && (forall x: Val :: !enseen[result][x])
+//@   ensures members: forall x: Val :: mem2(box(d), x) ==> x is DictEntryTuple
+//@ func NewDict(allowDupKeys, entries)
+//@   trusted
+//@   assigns fresh-only
+//@   returns (d, err)
+//@   ensures allowDupKeys ==> err == nil
+//@   ensures err == nil ==> d != nil
+//@ func (Names).Without(n; name)
+//@   trusted
+//@   assigns fresh-only
+// Names.Any picks an ARBITRARY name (frozen.Set.Any: first in hash order): a function of the set only for singletons
+//@ func (Names).Any(n)
+//@   trusted
+//@   assigns nothing
+//@   requires[C07,C05] single: n.tree.count == 1
+
+// the two element transformers (captured: ctx, closure, e, local). $1: `>>>` closure(at)(v);  $2: `>>` closure(v)
+//@ func (*SeqArrowExpr).Eval$1(at, v)
+//@   tags C05, C10
+//@   assigns fresh-only
+//@   modifies rel.arrayValueEnumerator, enset, enseen, encur
+//@   returns (r, err)
+//@   requires cl: closure != nil && validSet(closure) && e != nil
+//@   ensures[C05] res: err == nil ==> r != nil && calls2(closure, at, v, r)
+//@   ensures[C05] verr: err != nil ==> r == nil
+//@ func (*SeqArrowExpr).Eval$2(p0, v)
+//@   tags C05, C10
+//@   assigns fresh-only
+//@   modifies rel.arrayValueEnumerator, enset, enseen, encur
+//@   returns (r, err)
+//@   requires cl: closure != nil && validSet(closure)
+//@   ensures[C05] res: err == nil ==> r != nil && calls(closure, v, r)
+//@   ensures[C05] verr: err != nil ==> r == nil
+
+// SeqArrowExpr.Eval. V = the value of the left operand. Per representation: every key of V appears in the result
+// paired with the transformer's result (`*.all`), and nothing else (`*.only`).
+//@ spec seqV(e, ctx, local) = evalv(e.lhs, ctx, sc(local))
+//@ func (*SeqArrowExpr).Eval(e; ctx, local)
+//@   tags C05, C10
+//@   assigns fresh-only
+//@   modifies rel.arrayValueEnumerator, enset, enseen, encur
+//@   modifies HS|rel.Attr      // NewTuple's (coarse, assumed) frame: it may swap the two elements of the []Attr it is given
+//@   ghostentry added := noVals
+//@   ghostexit added := old(added)
+//@   returns (res, err)
+//@   requires wf: e != nil && e.lhs != nil && e.fn != nil
+//@   ensures[C05] lhserr: !evalok(e.lhs, ctx, sc(local)) ==> err != nil && res == nil
+//@   ensures[C05] arr: err == nil && seqV(e, ctx, local) is Array ==> res is Array && res.(Array).offset == seqV(e, ctx, local).(Array).offset && len(res.(Array).values) == len(seqV(e, ctx, local).(Array).values)
+//@       && (forall k in 0..len(res.(Array).values) :: (seqV(e, ctx, local).(Array).values[k] == nil ==> res.(Array).values[k] == nil)
+//@           && (seqV(e, ctx, local).(Array).values[k] != nil ==> res.(Array).values[k] != nil && fres(clo(e, local), e.withAt, num(seqV(e, ctx, local).(Array).offset + k), seqV(e, ctx, local).(Array).values[k], res.(Array).values[k])))
+//@   ensures[C05,C02] arr.valid: err == nil && seqV(e, ctx, local) is Array ==> validSet(res)
+//@   ensures[C05] bytes: err == nil && seqV(e, ctx, local) is Bytes ==> res is Bytes && res.(Bytes).offset == seqV(e, ctx, local).(Bytes).offset && len(res.(Bytes).b) == len(seqV(e, ctx, local).(Bytes).b)
+//@       && (forall k in 0..len(res.(Bytes).b) :: fresN(clo(e, local), e.withAt, num(seqV(e, ctx, local).(Bytes).offset + k), num(seqV(e, ctx, local).(Bytes).b[k]), res.(Bytes).b[k]))
+//@   ensures[C05] str: err == nil && seqV(e, ctx, local) is String ==> res is String && res.(String).offset == seqV(e, ctx, local).(String).offset && len(res.(String).s) == len(seqV(e, ctx, local).(String).s)
+//@       && (forall k in 0..len(res.(String).s) :: seqV(e, ctx, local).(String).s[k] >= 0 ==> fresN(clo(e, local), e.withAt, num(seqV(e, ctx, local).(String).offset + k), num(seqV(e, ctx, local).(String).s[k]), res.(String).s[k]))
+//@   ensures[C05] str.holes: err == nil && seqV(e, ctx, local) is String ==> forall k in 0..len(seqV(e, ctx, local).(String).s) :: seqV(e, ctx, local).(String).s[k] < 0 ==> res.(String).s[k] < 0
+//@   ensures[C05,C02] str.chars: err == nil && seqV(e, ctx, local) is String ==> forall k in 0..len(seqV(e, ctx, local).(String).s) :: seqV(e, ctx, local).(String).s[k] >= 0 ==> res.(String).s[k] >= 0
+//@   loop 0 invariant str: value == seqV(e, ctx, local) && value is String && validSet(value) && runes.ref != value.(String).s.ref && $idx <= len(value.(String).s) && fresh(runes) && runes.off == 0 && len(runes) == len(value.(String).s) && closure == clo(e, local) && err == nil
+//@       && (forall k in 0..$idx :: fresN(closure, e.withAt, num(value.(String).offset + k), num(value.(String).s[k]), runes[k]))
+//@   loop 1 invariant bytes: value == seqV(e, ctx, local) && value is Bytes && validSet(value) && bytes.ref != value.(Bytes).b.ref && $idx <= len(value.(Bytes).b) && fresh(bytes) && bytes.off == 0 && len(bytes) == len(value.(Bytes).b) && closure == clo(e, local) && err == nil
+//@       && (forall k in 0..$idx :: fresN(closure, e.withAt, num(value.(Bytes).offset + k), num(value.(Bytes).b[k]), bytes[k]))
+//@   loop 2 invariant arr: value == seqV(e, ctx, local) && value is Array && validSet(value) && items.ref != value.(Array).values.ref && $idx <= len(value.(Array).values) && fresh(items) && items.off == 0 && len(items) == len(value.(Array).values) && closure == clo(e, local) && err == nil
+//@       && (forall k in 0..$idx :: (value.(Array).values[k] == nil ==> items[k] == nil) && (value.(Array).values[k] != nil ==> items[k] != nil && fres(closure, e.withAt, num(value.(Array).offset + k), value.(Array).values[k], items[k])))
+//@       && (forall k in $idx..len(items) :: items[k] == nil)
+//@   loop 3 invariant dict: fresh(entries)
+
+// ---- C05: n\seq (expr_offset.go) -----------------------------------------------------------------------------------
+// Every index shifted by n: same backing slice, offset + n. `intoffset`: the property speaks of shifting indices by n;
+// a non-integral n has no such meaning (the code truncates it silently: finding).
+//@ spec offN(o, ctx, local) = evalv(o.offset, ctx, sc(local))
+//@ spec offA(o, ctx, local) = evalv(o.array, ctx, sc(local))
+//@ func (*OffsetExpr).Eval(o; ctx, local)
+//@   tags C05, C10
+//@   assigns fresh-only
+//@   returns (res, err)
+//@   requires wf: o != nil && o.offset != nil && o.array != nil
+//@   ensures[C05] operr: !evalok(o.offset, ctx, sc(local)) || !evalok(o.array, ctx, sc(local)) ==> err != nil && res == nil
+//@   ensures[C05] notnum: evalok(o.offset, ctx, sc(local)) && !(offN(o, ctx, local) is Number) ==> err != nil && res == nil
+//@   ensures[C05] intoffset: err == nil && !(offA(o, ctx, local) is EmptySet) ==> intArg(offN(o, ctx, local))
+//@   ensures[C05] arr: err == nil && offA(o, ctx, local) is Array ==> res is Array && res.(Array).values == offA(o, ctx, local).(Array).values && res.(Array).count == offA(o, ctx, local).(Array).count
+//@       && res.(Array).offset == offA(o, ctx, local).(Array).offset + f2i(offN(o, ctx, local).(Number))
+//@   ensures[C05] bytes: err == nil && offA(o, ctx, local) is Bytes ==> res is Bytes && res.(Bytes).b == offA(o, ctx, local).(Bytes).b
+//@       && res.(Bytes).offset == offA(o, ctx, local).(Bytes).offset + f2i(offN(o, ctx, local).(Number))
+//@   ensures[C05] str: err == nil && offA(o, ctx, local) is String ==> res is String && res.(String).s == offA(o, ctx, local).(String).s && res.(String).holes == offA(o, ctx, local).(String).holes
+//@       && res.(String).offset == offA(o, ctx, local).(String).offset + f2i(offN(o, ctx, local).(Number))
+//@   ensures[C05] empty: err == nil && offA(o, ctx, local) is EmptySet ==> res is EmptySet
+//@   ensures[C05] other: evalok(o.offset, ctx, sc(local)) && offN(o, ctx, local) is Number && evalok(o.array, ctx, sc(local)) && !(offA(o, ctx, local) is Array) && !(offA(o, ctx, local) is Bytes) && !(offA(o, ctx, local) is String) && !(offA(o, ctx, local) is EmptySet) ==> err != nil
+//@   ensures[C05,C02] valid: err == nil ==> validSet(res)
+
+// ---- C05: ++ (ops_rel.go) --------------------------------------------------------------------------------------------
+// Concatenate(a, b) = a  ∪  { y with its "@" shifted by a's element count | y in b } (catSet, 45_keyed.spec); an element of b
+// without a numeric "@" is an error. `sub`: nothing else is in the result; `sup`: everything of it is (up to the builder's
+// cleanSet hypothesis: where the union superimposes two sugar tuples -- offset or sparse left operand -- a member is lost: finding).
+//@ func Concatenate(a, b)
+//@   tags C05, C10
+//@   assigns fresh-only
+//@   modifies rel.arrayValueEnumerator, enset, enseen, encur
+//@   ghostentry added := noVals
+//@   ghostexit added := old(added)
+//@   returns (res, err)
+//@   requires wf: a != nil && b != nil && validSet(a) && validSet(b)
+//@   ensures[C05] sub: err == nil ==> forall x: Val :: mem2(res, x) ==> catSet(a, b, x)
+// (not claimed: `supa: forall x :: mem2(a, x) ==> exists z :: mem2(res, z) && eq(z, x)` -- the invariants for it prove (loop 0/1, last conjunct), but the
+//  final step through Finish's cleanSet hypothesis does not finish in any solver within 120 s, inside or outside the region)
+//@   ensures[C05] badelt: err != nil ==> res == nil && (exists y: Val :: mem2(b, y) && !(y is Tuple && hasattr(y, "@") && tget(y, "@") is Number))
+//@   loop 0 invariant left: e != nil && enset[e] == a && offset == scard(a) && (forall x: Val :: added[x] ==> mem2(a, x)) && (forall x: Val :: enseen[e][x] ==> (exists z: Val :: added[z] && eq(z, x)))
+//@   loop 1 invariant right: e != nil && enset[e] == b && offset == scard(a) && (forall x: Val :: added[x] ==> catSet(a, b, x)) && (forall x: Val :: mem2(a, x) ==> (exists z: Val :: added[z] && eq(z, x)))
+
+// ---- C03: the remaining writers (frames) and what they iterate with -------------------------------------------------------
+// String / Bytes enumerators: cursors over the receiver's backing slice (read only).
+//@ func (String).Enumerator(s)
+//@   tags C10
+//@   assigns fresh-only
+//@   ensures result is *stringEnumerator && fresh(result.(*stringEnumerator)) && result.(*stringEnumerator).s == s && result.(*stringEnumerator).i == -1
+//@ func (*stringEnumerator).MoveNext(e)
+//@   tags C10, C01
+//@   assigns nothing
+//@   modifies rel.stringEnumerator
+//@   requires e != nil && -1 <= e.i && e.i < len(e.s.s)
+//@   ensures same: e.s == old(e.s) && old(e.i) <= e.i && e.i < len(e.s.s)
+//@   ensures[C01] next: result ==> old(e.i) < e.i && e.s.s[e.i] >= 0 && (forall k in old(e.i)+1..e.i :: e.s.s[k] < 0)
+//@   ensures[C01] done: !result ==> e.i == len(e.s.s) - 1 && (forall k in old(e.i)+1..len(e.s.s) :: e.s.s[k] < 0)
+//@   loop 0 invariant e.s == old(e.s) && old(e.i) <= e.i && e.i < len(e.s.s) && (forall k in old(e.i)+1..e.i+1 :: e.s.s[k] < 0)
+//@ func (*stringEnumerator).Current(e)
+//@   tags C10, C01
+//@   assigns nothing
+//@   requires e != nil && 0 <= e.i && e.i < len(e.s.s)
+//@   ensures[C01] cur: result == mkval(rel.StringCharTuple, e.s.offset + e.i, e.s.s[e.i])
+//@ func (Bytes).Enumerator(b)
+//@   tags C10
+//@   assigns fresh-only
+//@   ensures result is *BytesEnumerator && fresh(result.(*BytesEnumerator)) && result.(*BytesEnumerator).b == b.b && result.(*BytesEnumerator).offset == b.offset && result.(*BytesEnumerator).i == -1
+//@ func (*BytesEnumerator).MoveNext(e)
+//@   tags C10, C01
+//@   assigns nothing
+//@   modifies rel.BytesEnumerator
+//@   requires e != nil && -1 <= e.i && e.i < len(e.b)
+//@   ensures same: e.b == old(e.b) && e.offset == old(e.offset)
+//@   ensures[C01] step: result == (old(e.i) < len(e.b) - 1) && e.i == old(e.i) + (result ? 1 : 0)
+//@ func (*BytesEnumerator).Current(e)
+//@   tags C10, C01
+//@   assigns nothing
+//@   requires e != nil && 0 <= e.i && e.i < len(e.b)
+//@   ensures[C01] cur: result == mkval(rel.BytesByteTuple, e.offset + e.i, e.b[e.i])
+
+// Map / Where of the slice-backed sets: build a NEW set; the receiver's backing slice is only read (C03). The callbacks
+// are modelled as pure function applications that allocate at most fresh memory. (den clauses: not claimed here.)
+//@ func (String).Map(s; f)
+//@   tags C03, C10
+//@   assigns fresh-only
+//@   modifies rel.stringEnumerator
+//@   ghostentry added := noVals
+//@   ghostexit added := old(added)
+//@   fnparam f pure fresh-only
+//@   requires f != nil
+//@   loop 0 invariant e != nil && fresh(e) && e.s == s && -1 <= e.i && e.i < len(e.s.s)
+//@ func (String).Where(s; p)
+//@   tags C03, C10
+//@   assigns fresh-only
+//@   modifies rel.stringEnumerator
+//@   ghostentry added := noVals
+//@   ghostexit added := old(added)
+//@   fnparam p pure fresh-only
+//@   requires p != nil
+//@   loop 0 invariant e != nil && fresh(e) && e.s == s && -1 <= e.i && e.i < len(e.s.s)
+//@ func (Bytes).Map(b; f)
+//@   tags C03, C10
+//@   assigns fresh-only
+//@   modifies rel.BytesEnumerator
+//@   ghostentry added := noVals
+//@   ghostexit added := old(added)
+//@   fnparam f pure fresh-only
+//@   requires f != nil
+//@   loop 0 invariant e != nil && fresh(e) && e.b == b.b && -1 <= e.i && e.i < len(e.b)
+//@ func (Bytes).Where(b; p)
+//@   tags C03, C10
+//@   assigns fresh-only
+//@   modifies rel.BytesEnumerator
+//@   ghostentry added := noVals
+//@   ghostexit added := old(added)
+//@   fnparam p pure fresh-only
+//@   requires p != nil
+//@   loop 0 invariant e != nil && fresh(e) && e.b == b.b && -1 <= e.i && e.i < len(e.b)
+//@ func (Array).Map(a; f)
+//@   tags C03, C10
+//@   assigns fresh-only
+//@   modifies rel.arrayValueEnumerator, enset, enseen, encur
+//@   ghostentry added := noVals
+//@   ghostexit added := old(added)
+//@   fnparam f pure fresh-only
+//@   requires f != nil && validArray(a)
+//@   loop 0 invariant e != nil
+// (Array.Where -- writes `result.values[i] = nil` into the clone made by Array.clone -- contract withdrawn: with `assigns fresh-only` and the
+//  invariant fresh(result.values) && len(result.values) == len(a.values) the store's safe.index and loop-frame obligations do not discharge
+//  (the addressable local `result` is re-read after the callback call); not a defect of arr.ai as far as reading shows, see notes)
+// (Relation.tupleToValues: tried `assigns fresh-only` + `fresh(values)` invariant; the frame proves but safe.index#1/#2 (r.p[i] within
+//  len(values)) and safe.panic#0 (len(r.attrs) == t.Count()) need the relation invariant validRel(r) of w-c04 plus an arity function for
+//  Tuple.Count that does not exist yet: contract withdrawn, see notes)
+
+// ---- C05: CallAll of the other representations ---------------------------------------------------------------------------
+// EmptySet / TrueSet / GenericSet (safety stubs with the same headers in verif_contracts_c10.go): nothing is added; a GenericSet
+// ("does not hold (@, x) tuples") is always an error. These are the rep.none / rep.err clauses of the interface contract
+// rel.Set.CallAll (45_keyed.spec). Dict / Relation / UnionSet / Closure: frozen-backed or evaluating, covered by that ASSUMED
+// interface contract only (w-c10 tried (Dict).CallAll: safe.nil not provable without frozen.Map.Get's contract).
+// errElementsNotMatchingAt is only set by its initialiser errors.Errorf(...) (ASSUMED fact)
+//@ globalfact errElementsNotMatchingAt errElementsNotMatchingAt != nil
+//@ func (EmptySet).CallAll(e; arg1, arg2, arg3)
+//@   tags C05
+//@   ensures[C05] none: result == nil
+//@ func (TrueSet).CallAll(arg0; arg1, arg2, arg3)
+//@   tags C05
+//@   ensures[C05] none: result == nil
+//@ func (GenericSet).CallAll(s; p1, arg, b)
+//@   tags C05
+//@   ensures[C05] err: result != nil
